@@ -260,6 +260,23 @@ def value_props(m: Any) -> dict[str, Any]:
     return out
 
 
+def derived_views(m: Any) -> list[str]:
+    """Names of the cached views a model derives from its repeated fields (tags / links / postings / meta ...)."""
+    from autobean_refactor.models.internal import properties as props_lib
+    out = []
+    for k in type(m).__mro__:
+        for a, v in vars(k).items():
+            if isinstance(v, props_lib.cached_custom_property) and not a.startswith('_') and a not in out:
+                out.append(a)
+    return out
+
+
+def view_norm(x: Any) -> Any:
+    if isinstance(x, base.RawModel):
+        return ('model', type(x).__name__, tree.text_of(x).strip())
+    return ('value', repr(x))
+
+
 def replay(hosts: dict, beh: dict, check: set[str]) -> tuple[list, int]:
     cname = beh['cls']
     h = hosts[cname]
@@ -283,6 +300,12 @@ def replay(hosts: dict, beh: dict, check: set[str]) -> tuple[list, int]:
                 return
         findings.append((f'slots/{cname}.{ev["name"]}/{ev["op"]}/{kind}', kind, msg))
 
+    views = derived_views(m)
+    for vn in views:        # every view has been read (and cached) before the first edit
+        try:
+            list(getattr(m, vn))
+        except Exception:  # noqa: BLE001
+            pass
     for ev in beh['steps'][1:]:
         s = sc[ev['slot'] - 1]
         op = ev['op']
@@ -313,6 +336,8 @@ def replay(hosts: dict, beh: dict, check: set[str]) -> tuple[list, int]:
                     # a raw node must carry an indent that fits where it is put
                     ind = m.raw_indent.value if hasattr(m, 'raw_indent') else ''
                     donor = models.BlockComment.from_value(donor.value, indent=ind)
+                if s['kind'] == 'rep' and len(donor) > 0:
+                    donor.pop(0)       # a list that differs from the current one (the derived views must follow)
                 setattr(m, s['name'], donor)
             elif op == 'clear':
                 setattr(m, s['name'], None)
@@ -424,7 +449,7 @@ def replay(hosts: dict, beh: dict, check: set[str]) -> tuple[list, int]:
             for k, v in vals1.items():
                 if k != s['val'] and vals0.get(k) != v:
                     add('readback', ev, f'other property {k} changed from {vals0.get(k)!r} to {v!r}')
-        if {'reparse', 'readback'} & check:
+        if {'reparse', 'readback', 'views'} & check:
             tainted = False
             try:
                 f2 = tree.parse(text)
@@ -443,6 +468,29 @@ def replay(hosts: dict, beh: dict, check: set[str]) -> tuple[list, int]:
             except Exception as e:  # noqa: BLE001
                 if 'reparse' in check:
                     add('reparse', ev, f'printed text does not parse ({type(e).__name__}): {text!r}')
+            if views and not findings and not tainted and ({'views', 'reparse', 'readback'} & check):
+                # the cached views derived from the repeated fields still show the current lists: element for
+                # element what the re-parsed document shows, and (node views) the very objects of the raw lists
+                try:
+                    f3 = tree.parse(text)
+                    m3 = at_path(f3, path)
+                    raw_ids = set()
+                    for sj in sc:
+                        if sj['kind'] == 'rep':
+                            raw_ids |= {id(x) for x in getattr(m, sj['name'])}
+                    for vn in views:
+                        mem = list(getattr(m, vn))
+                        rep3 = list(getattr(m3, vn))
+                        if [view_norm(x) for x in mem] != [view_norm(x) for x in rep3]:
+                            add('views', ev, f'view {vn} shows {[view_norm(x)[-1] for x in mem]}, the printed document has '
+                                             f'{[view_norm(x)[-1] for x in rep3]}')
+                        elif any(isinstance(x, base.RawModel) and id(x) not in raw_ids for x in mem):
+                            add('views', ev, f'view {vn} holds objects that are not elements of the raw list')
+                except KeyError:
+                    pass
+                except Exception as e:  # noqa: BLE001
+                    if common.raised_in_repo(e):
+                        add('views', ev, f'a derived view cannot be read: {type(e).__name__}: {e}')
             if tainted and not findings:
                 # the known compact-source defect (a removal merged two neighbours) struck on a step this property
                 # does not judge: the rest of this history runs on a document that no longer says what the tree
@@ -519,7 +567,7 @@ def run(rep: common.Reporter, tier: str, check: set[str], plans: Optional[list] 
             for fp, kind, msg, beh in out:
                 if kind == 'machinery':
                     rep.machinery_error(msg)
-                elif kind in check or kind == 'unobservable':
+                elif kind in check or kind == 'unobservable' or (kind == 'views' and {'reparse', 'readback'} & set(check)):
                     rep.violation(fp, {'kind': kind, 'what': msg, 'behaviour': beh})
     return {'states': states, 'transitions': transitions, 'behaviours': len(behs), 'steps': steps,
             'classes': len(hosts), 'slots': sum(len(h['slots']) for h in hosts.values()),
